@@ -162,8 +162,13 @@ def build_ocaml():
         return
     for s in srcs:
         shutil.copyfile(s, os.path.join(ml, os.path.basename(s)))
-    order = ["gvcore.mli", "gvcore.ml", "util.ml"] + \
-        sorted(f for f in os.listdir(OCAML) if f.endswith(".ml") and f not in ("util.ml", "main.ml")) + ["main.ml"]
+    for f in os.listdir(ml):
+        if f.endswith((".cmi", ".cmx", ".o")):
+            os.remove(os.path.join(ml, f))
+    rc, out = sh("ocamlfind ocamldep -sort gvcore.mli *.ml", cwd=ml)
+    if rc != 0:
+        raise Broken("ocamldep failed", out[-2000:])
+    order = out.split()
     rc, out = sh(["ocamlfind", "ocamlopt", "-package", "str", "-linkpkg", "-w", "-a"] + order + ["-o", GVMODEL],
                  cwd=ml, timeout=900)
     if rc != 0:
